@@ -26,4 +26,11 @@ theorem filter_roundtrip_opt (f : Option GFilterNode) :
     (f.map controlpbFilterFromProto).map protoFilterFromControlpb = f := by
   cases f <;> simp [filter_roundtrip]
 
+/-- unsubscribe round trip (restated as `control_roundtrip_unsubscribe` in `Props/C27.lean`; kept here so that the
+C28 proofs do not depend on the subscribe theorems of C27). -/
+theorem unsubscribe_roundtrip (u ch : String) (o : GUnsubscribeOptions) :
+    (remoteUnsubscribe (encodeUnsubscribe u ch o)).view = (localUnsubscribe u ch o).view := by
+  simp only [remoteUnsubscribe, encodeUnsubscribe, localUnsubscribe]
+  cases o.unsubscribe <;> by_cases h : (u = "" ∧ o.allUsers = true) <;> simp [h, filter_comp]
+
 end CentrifugeVerif.Gen.ControlCodec
